@@ -60,6 +60,26 @@ extern int32_t eccMap(psPool_t *pool,
         const pstm_digit *mp);
 
 /******************************************************************************/
+/*
+    Read r or s of an ECDSA-Sig-Value: a DER INTEGER that is not negative and
+    has no superfluous leading zero octet.  (At most 67 octets for the
+    supported curves, so the length is always in the short form.)
+ */
+static int32_t eccSigReadInt(psPool_t *pool, const unsigned char **pp,
+    const unsigned char *end, pstm_int *a)
+{
+    const unsigned char *c = *pp;
+
+    if (end - c < 3 || c[0] != ASN_INTEGER || c[1] < 1 || c[1] > 0x7F ||
+        (end - c) - 2 < c[1] || (c[2] & 0x80) ||
+        (c[2] == 0x0 && c[1] > 1 && !(c[3] & 0x80)))
+    {
+        return PS_PARSE_FAIL;
+    }
+    return pstm_read_asn(pool, pp, (uint16_t) (end - c), a);
+}
+
+/******************************************************************************/
 /**
     Verify an ECDSA signature.
 
@@ -98,14 +118,27 @@ int32_t psEccDsaVerify(psPool_t *pool, const psEccKey_t *key,
         psTraceCrypto("ECDSA subject signature parse failure 1\n");
         return err;
     }
-    if ((err = pstm_read_asn(pool, &c, (uint16_t) (end - c), &r)) < 0)
+    /* The signature is exactly the DER encoding of SEQUENCE { r, s }: the
+       SEQUENCE spans the whole input, its length is in the shortest form,
+       and s ends where the SEQUENCE ends */
+    if (len != (psSize_t) (end - c) || (c - sig) != (len < 0x80 ? 2 : 3))
+    {
+        psTraceCrypto("ECDSA signature is not a DER ECDSA-Sig-Value\n");
+        return PS_PARSE_FAIL;
+    }
+    if ((err = eccSigReadInt(pool, &c, end, &r)) < 0)
     {
         psTraceCrypto("ECDSA subject signature parse failure 2\n");
         return err;
     }
-    if ((err = pstm_read_asn(pool, &c, (uint16_t) (end - c), &s)) < 0)
+    if ((err = eccSigReadInt(pool, &c, end, &s)) < 0 || c != end)
     {
         psTraceCrypto("ECDSA subject signature parse failure 3\n");
+        if (err >= 0)
+        {
+            pstm_clear(&s);
+            err = PS_PARSE_FAIL;
+        }
         pstm_clear(&r);
         return err;
     }
